@@ -135,7 +135,7 @@ pub fn cmd() -> impl Strategy<Value = Cmd> {
         3 => (id.clone(), v.clone()).prop_map(|(id, v)| Cmd::RegW { id, v }),
         1 => id.clone().prop_map(|id| Cmd::DeregW { id }),
         2 => (id.clone(), 0u8..4).prop_map(|(id, st)| Cmd::Status { id, st }),
-        2 => (id.clone(), proptest::collection::vec(0u8..4, 0..3)).prop_map(|(id, p)| Cmd::Pipes { id, p }),
+        3 => (id.clone(), proptest::collection::vec(0u8..5, 0..7)).prop_map(|(id, p)| Cmd::Pipes { id, p }),
         2 => (id.clone(), v.clone()).prop_map(|(n, v)| Cmd::GDep { n, v }),
         2 => (id.clone(), v.clone()).prop_map(|(n, v)| Cmd::GUpd { n, v }),
         1 => id.clone().prop_map(|n| Cmd::GRem { n }),
